@@ -74,6 +74,10 @@ FIXED_PROGRAMS = [
     [{"t": "rule", "pat": "(a)(b)?(c)", "ng": 3, "tmpl": "\\1 + \\2\\3"}],
     [{"t": "rule", "pat": "(a)(b)*", "ng": 2, "tmpl": "x\\1y\\2z"}, {"t": "rule", "pat": "y", "ng": 0, "tmpl": ""}],
     [{"t": "rule", "pat": "(a)|(b)", "ng": 2, "tmpl": "\\1.\\2"}],
+    # a group nested in the previously referenced one (it starts before the current position)
+    [{"t": "rule", "pat": "(a(b))", "ng": 2, "tmpl": "\\1 \\2"}],
+    [{"t": "rule", "pat": " +", "ng": 0, "tmpl": "  "}, {"t": "rule", "pat": "(a(b))", "ng": 2, "tmpl": "\\1\\2"}],
+    [{"t": "rule", "pat": "((a)b)c", "ng": 2, "tmpl": "x\\1\\2"}],
 ]
 
 
